@@ -438,6 +438,59 @@ Proof.
   destruct (Z.leb_spec X (k' * tau)); destruct (Z.leb_spec (cdivZ X tau) k'); try reflexivity; exfalso; lia.
 Qed.
 
+(** * 3. Float inputs that satisfy the closeness hypotheses *)
+
+(* the double nearest to a rational *)
+Lemma RN_near D : / 1073741824 <= D -> Rabs (RN D - D) <= bpow radix2 (-51) * D.
+Proof.
+  intros H. destruct (RN_rel D) as [e [E R]]. right; exact H.
+  rewrite R, b51. replace (D * (1 + e) - D) with (D * e) by ring.
+  rewrite Rabs_mult, (Rabs_pos_eq D) by lra. rewrite (Rmult_comm (4 * u)). apply Rmult_le_compat_l. lra.
+  eapply Rle_trans. exact E. unfold u. lra.
+Qed.
+
+Lemma inv_one_plus_u e : Rabs e <= u -> exists e', Rabs e' <= u + 2 * u * u /\ / (1 + e) = 1 + e'.
+Proof.
+  intros H. apply Rabs_le_inv in H. exists (/ (1 + e) - 1). split; [|ring].
+  assert (P : 0 < 1 + e) by (unfold u in *; lra).
+  assert (W : / (1 + e) * (1 + e) = 1) by (apply Rinv_l; lra).
+  assert (W0 : 0 < / (1 + e)) by (apply Rinv_0_lt_compat; exact P).
+  set (w := / (1 + e)) in *.
+  assert (U1 : 1 <= (1 + (u + 2 * u * u)) * (1 + e)) by (unfold u in *; nra).
+  assert (U2 : (1 - (u + 2 * u * u)) * (1 + e) <= 1) by (unfold u in *; nra).
+  apply Rabs_le. split.
+  - assert (w * ((1 - (u + 2 * u * u)) * (1 + e)) <= w * 1) by (apply Rmult_le_compat_l; lra). nra.
+  - assert (w * 1 <= w * ((1 + (u + 2 * u * u)) * (1 + e))) by (apply Rmult_le_compat_l; lra). nra.
+Qed.
+
+(* a float quotient of two nearest doubles, such as (5/512) / 1.1 written in Python *)
+Lemma quot_near A B : / 1048576 <= A -> / 1048576 <= B -> / 1048576 <= A / B ->
+  Rabs (RN (RN A / RN B) - A / B) <= bpow radix2 (-51) * (A / B).
+Proof.
+  intros HA HB HQ.
+  destruct (RN_rel A) as [ea [Ea Ra]]. right; lra.
+  destruct (RN_rel B) as [eb [Eb Rb]]. right; lra.
+  destruct (inv_one_plus_u eb Eb) as [eb' [Eb' Ri]].
+  assert (Upos : 0 < u) by (unfold u; lra).
+  assert (Eb2 := Rabs_le_inv _ _ Eb).
+  assert (Q : RN A / RN B = A / B * ((1 + ea) * (1 + eb'))).
+  { rewrite Ra, Rb, <- Ri. field. split. unfold u in *; lra. lra. }
+  pose proof (two_eps ea eb' u (u + 2 * u * u) ltac:(lra) ltac:(nra) Ea Eb') as F.
+  set (f := (1 + ea) * (1 + eb') - 1) in *.
+  assert (Q' : RN A / RN B = A / B * (1 + f)) by (rewrite Q; unfold f; ring).
+  assert (F' : Rabs f <= 2 * u + 4 * u * u) by (eapply Rle_trans; [exact F | unfold u; lra]).
+  destruct (RN_rel (RN A / RN B)) as [ec [Ec Rc]].
+  { right. rewrite Q'. apply Rabs_le_inv in F'. unfold u in *. nra. }
+  rewrite Rc, Q', b51.
+  replace (A / B * (1 + f) * (1 + ec) - A / B) with (A / B * ((1 + f) * (1 + ec) - 1)) by ring.
+  rewrite Rabs_mult, (Rabs_pos_eq (A / B)) by lra. rewrite (Rmult_comm (4 * u)). apply Rmult_le_compat_l. lra.
+  eapply Rle_trans. apply (two_eps f ec (2 * u + 4 * u * u) u); try (unfold u; lra); assumption. unfold u. lra.
+Qed.
+
+(* an exactly representable input *)
+Lemma exact_near x : 0 <= x -> Rabs (x - x) <= bpow radix2 (-51) * x.
+Proof. intros H. replace (x - x) with 0 by ring. rewrite Rabs_R0. apply Rmult_le_pos. apply bpow_ge_0. exact H. Qed.
+
 Print Assumptions noteoff_release_exact.
 Print Assumptions action_start_exact.
 (* each prints exactly: ClassicalDedekindReals.sig_not_dec, ClassicalDedekindReals.sig_forall_dec,
